@@ -3,6 +3,7 @@
 
   tools/mutants.py list <file.py>                      print the mutants of src/kyupy/<file.py>
   tools/mutants.py run <file.py> [--max N] [--jobs J]  run up to N mutants (evenly spread), J at a time; results -> mutation/<file>.jsonl
+  tools/mutants.py retest <file.py> Cxx,Cyy [--jobs J] run further checks on the recorded survivors of that file
   tools/mutants.py report                              summary table of all result files
 
 Every mutant lives in a scratch copy of /repo/src under /tmp/mutwork (removed afterwards) and is run through VERIF_REPO; /repo is never
@@ -186,6 +187,33 @@ def main():
                 r = fu.result()
                 f.write(json.dumps(r) + '\n'); f.flush()
                 print(r['k'], r['line'], r['verdict'], r.get('by', ''), r.get('suite', ''), '|', r['mutant'], flush=True)
+        shutil.rmtree('/tmp/mutwork', ignore_errors=True)
+        shutil.rmtree(f'{VERIF}/replays', ignore_errors=True)
+    elif cmd == 'retest':           # tools/mutants.py retest <file.py> Cxx,Cyy [--jobs J]: run further checks on the survivors
+        fname, props = sys.argv[2], sys.argv[3].split(',')
+        args = sys.argv[4:]
+        jobs = int(args[args.index('--jobs') + 1]) if '--jobs' in args else 4
+        ms = mutants(f'{REPO_SRC}/kyupy/{fname}')
+        outp = f'{VERIF}/mutation/{fname}.jsonl'
+        rs = [json.loads(l) for l in open(outp)]
+        todo = [r for r in rs if r['verdict'] == 'survived' and not all(p_ in r['checks'] for p_ in props)]
+        print(f'{fname}: retesting {len(todo)} survivors with {props}', flush=True)
+        saved = MAP[fname]
+        MAP[fname] = props
+
+        def again(r):
+            n = run_one(fname, r['k'], r['line'], r['mutant'], ms[r['k']][2], max(2, 16 // jobs), 240)
+            r['checks'].update(n['checks'])
+            if n['verdict'] != 'survived':
+                r['verdict'] = n['verdict']; r['by'] = n.get('by'); r['detail'] = n.get('detail', '')
+            return r
+        with ThreadPoolExecutor(jobs) as ex:
+            for r in ex.map(again, todo):
+                print(r['k'], r['line'], r['verdict'], r.get('by', ''), '|', r['mutant'][:120], flush=True)
+        MAP[fname] = saved
+        with open(outp, 'w') as f:
+            for r in rs:
+                f.write(json.dumps(r) + '\n')
         shutil.rmtree('/tmp/mutwork', ignore_errors=True)
         shutil.rmtree(f'{VERIF}/replays', ignore_errors=True)
     elif cmd == 'report':
